@@ -21,7 +21,9 @@ META = dict(
                 "key -> node of C28's abstract contract). By induction over the history (init establishes wf of the empty view) the "
                 "contracts give the property for every sequence of operations that keeps the tree within the node bound. A separate "
                 "job runs histories from the real parsec_rbtree_init (k inserts with symbolic keys, one enumerated removal, one query) "
-                "without using the pre-state generator.",
+                "without using the pre-state generator. Larger sizes of remove / update_node are split into one process per node "
+                "operated on (-DZFIX), and every remove size >= 3 additionally runs two sub-cases with concrete stale values in the "
+                "sentinel's link fields, so that code which reads a stale sentinel field fails fast instead of exploding.",
     trusted_base=["the pre-state generator build() enumerates every red-black shape with n nodes (it is the inductive definition: "
                   "nil | red node with two non-red subtrees of equal black height | black node with two subtrees of equal black height "
                   "b-1); each generated state is checked against the independent wf checker (obligation C36.lemma.*), the converse "
@@ -47,34 +49,49 @@ def jobs(tier):
     n_rem = 6 if full else 5       # ... for remove (5: smallest size where a rotation moves a non-nil inner subtree)
     n_qry = 6 if full else 4       # for find
     n_fol = 5 if full else 4       # for find_or_larger / minimum
-    n_upd = 4 if full else 2       # for update_node (remove + insert + find inside: most paths)
+    n_upd = 4                     # for update_node (remove + insert + find inside: most paths)
     kops = 3 if full else 2
     to = 2400 if full else 280
     J = [Job("init", "h_rbtree.c", entry="h_init", unwind=12, defines={"WITH_OBJECT_SYSTEM": None, "NMAX": 1, "NFIX": 0},
-             unwindset={"expand_array.0": 11}, functions=["parsec_rbtree_init"], timeout=300, min_obligations=9, extra_cbmc=CAD)]
+             unwindset={"expand_array.0": 11}, functions=["parsec_rbtree_init"], timeout=300, min_obligations=9, extra_cbmc=CAD, mem_gb=2)]
 
-    def grp(op, entry, lo, hi, fn, minob, sat=CAD):
+    def one(name, entry, n, fn, minob, extra=None, what=""):
+        d = {"NFIX": n, "NMAX": max(n, 1)}
+        d.update(extra or {})
+        J.append(Job(name, "h_rbtree.c", entry=entry, unwind=n + 6, paths="lifo", defines=d, functions=fn, timeout=to,
+                     min_obligations=minob, extra_cbmc=CAD, mem_gb=2,
+                     bounded="pre-state: every well-formed tree with exactly %d nodes, all 32-bit keys%s" % (n, what)))
+
+    def grp(op, entry, lo, hi, fn, minob, split_from=99):
+        # from size split_from on, one process per node operated on (-DZFIX = in-order rank): same coverage, shorter processes
         for n in range(lo, hi + 1):
-            J.append(Job("%s.n%d" % (op, n), "h_rbtree.c", entry=entry, unwind=n + 6, paths="lifo",
-                         defines={"NFIX": n, "NMAX": max(n, 1)}, functions=fn, timeout=to, min_obligations=minob, extra_cbmc=sat,
-                         bounded="pre-state: every well-formed tree with exactly %d nodes, all 32-bit keys (node bound %d in this tier)" % (n, hi)))
-    grp("insert", "h_insert", 0, n_ins, ["parsec_rbtree_insert", "parsec_rbtree_insert_fixup", "parsec_rbtree_left_rotate", "parsec_rbtree_right_rotate"], 11)
-    grp("remove", "h_remove", 1, n_rem, ["parsec_rbtree_remove", "parsec_rbtree_delete_fixup", "parsec_rbtree_transplant", "parsec_rbtree_minimum",
-                                         "parsec_rbtree_left_rotate", "parsec_rbtree_right_rotate"], 11)
-    # sub-case of remove.n3 with concrete stale values in the sentinel's link fields (in the general jobs they are symbolic junk
-    # pointers; a read of one of them before it is written makes those jobs explode instead of failing quickly)
-    J.append(Job("remove.n3.sentinel_links_concrete", "h_rbtree.c", entry="h_remove", unwind=9, paths="lifo",
-                 defines={"NFIX": 3, "NMAX": 3, "NIL_JUNK_CONCRETE": None}, functions=["parsec_rbtree_remove", "parsec_rbtree_delete_fixup"],
-                 timeout=to, min_obligations=11, extra_cbmc=CAD,
-                 bounded="pre-state: every well-formed tree with exactly 3 nodes, sentinel parent = a stale node, sentinel children = sentinel"))
+            if n >= split_from:
+                for z in range(n):
+                    one("%s.n%d.node%d" % (op, n, z), entry, n, fn, minob, {"ZFIX": z}, ", node operated on = rank %d" % z)
+            else:
+                one("%s.n%d" % (op, n), entry, n, fn, minob)
+    F_INS = ["parsec_rbtree_insert", "parsec_rbtree_insert_fixup", "parsec_rbtree_left_rotate", "parsec_rbtree_right_rotate"]
+    F_REM = ["parsec_rbtree_remove", "parsec_rbtree_delete_fixup", "parsec_rbtree_transplant", "parsec_rbtree_minimum",
+             "parsec_rbtree_left_rotate", "parsec_rbtree_right_rotate"]
+    grp("insert", "h_insert", 0, n_ins, F_INS, 11)
+    grp("remove", "h_remove", 1, n_rem, F_REM, 11, split_from=5)
+    # sub-cases of the remove jobs with CONCRETE stale values in the sentinel's link fields (parent = last / first node of the
+    # tree, children = the sentinel itself).  In the general jobs those fields are symbolic junk pointers: code that reads one of
+    # them before writing it makes the general job explode (timeout = undecided) instead of failing; here the execution stays
+    # concrete and the wf clauses fail within seconds.
+    for n in range(3, n_rem + 1):
+        for v in (1, 2):
+            one("remove.n%d.sentinel_links_concrete%d" % (n, v), "h_remove", n, F_REM, 11, {"NIL_JUNK_CONCRETE": v},
+                ", sentinel parent = %s node, sentinel children = sentinel" % ("last" if v == 1 else "first"))
     grp("find", "h_find", 0, n_qry, ["parsec_rbtree_find"], 3)
     grp("find_or_larger", "h_find_or_larger", 0, n_fol, ["parsec_rbtree_find_or_larger"], 4)
     grp("minimum", "h_minimum", 1, n_fol, ["parsec_rbtree_minimum"], 4)
-    grp("update_node", "h_update", 1, n_upd, ["parsec_rbtree_update_node", "parsec_rbtree_find", "parsec_rbtree_remove", "parsec_rbtree_insert"], 13)
+    grp("update_node", "h_update", 1, n_upd, ["parsec_rbtree_update_node", "parsec_rbtree_find", "parsec_rbtree_remove", "parsec_rbtree_insert"], 13,
+        split_from=3)
     J.append(Job("history.k%d" % kops, "h_rbtree.c", entry="h_history", unwind=max(12, kops + 6), paths="lifo",
                  defines={"WITH_OBJECT_SYSTEM": None, "KOPS": kops, "NMAX": kops - 1, "NFIX": 0}, unwindset={"expand_array.0": 11},
                  functions=["parsec_rbtree_init", "parsec_rbtree_insert", "parsec_rbtree_remove", "parsec_rbtree_find", "parsec_rbtree_find_or_larger"],
-                 timeout=to, min_obligations=14, extra_cbmc=CAD,
+                 timeout=to, min_obligations=14, extra_cbmc=CAD, mem_gb=2,
                  bounded="histories from the empty tree: %d inserts (symbolic keys), then one removal or none, then one query" % kops))
     return J
 
@@ -82,7 +99,7 @@ def jobs(tier):
 MANIFEST = dict(
     category="other",
     text="Contract check of the real red-black tree: for EVERY well-formed tree with at most N nodes (N = 4 quick / 6 thorough for insert, 5 / 6 for remove, 4 / 6 for "
-         "find, 4 / 5 for find_or_larger and minimum, 2 / 4 for update_node), every 32-bit key assignment respecting the search "
+         "find, 4 / 5 for find_or_larger and minimum, 4 / 4 for update_node), every 32-bit key assignment respecting the search "
          "order (duplicates included) and every argument, CBMC discharges: insert / remove / update_node re-establish all red-black "
          "and search-tree invariants and parent pointers and change the view by exactly the node (resp. the key) concerned; "
          "update_node returns PARSEC_ERR_EXISTS exactly when another node holds the new key and then changes nothing; find returns a "
